@@ -59,6 +59,11 @@ package handler
 //@ func (*timeoutWriter).WriteHeader
 //@   prop C02
 //@   opaque checkWriteHeaderCode, relevantCaller, Errorf
+// an invalid status code panics (as net/http does): the writer's lock is released nevertheless, so the recovery
+// handler can still answer 500 and the timeout arm can still take the lock
+//@   may-panic checkWriteHeaderCode
+//@   panic-ensures [lock-released-on-invalid-code] calls(on("lock", tw.mu)) == 1 && calls(on("unlock", tw.mu)) == 1 && tw.code == old(tw.code) && tw.wroteHeader == old(tw.wroteHeader)
+//@   ensures [lock-released] calls(on("lock", tw.mu)) == 1 && calls(on("unlock", tw.mu)) == 1
 //@   requires tw != nil
 //@   ensures [first-status-wins] !old(tw.timedOut) && !old(tw.wroteHeader) ==> tw.wroteHeader && tw.code == code
 //@   ensures [later-status-ignored] old(tw.wroteHeader) || old(tw.timedOut) ==> tw.code == old(tw.code) && tw.wroteHeader == old(tw.wroteHeader)
